@@ -756,6 +756,17 @@ impl<'a> Pool<'a> {
     /// `.optional().catch()`), followed by an optional member
     pub fn adjacent_group_nested(&mut self) -> Spec {
         let first = Spec::Item(self.flag_item(Leaf::ReqFlag));
+        if self.rng.chance(1, 4) {
+            // the first member is itself a plain tuple: `construct!(construct!(tag, x), y)`
+            let x = Spec::Item(self.pos_item(Strict::Any));
+            let y = Spec::Item(self.pos_item(Strict::Any));
+            let g = Spec::Adj(vec![Spec::Seq(vec![first, x]), y]);
+            return match self.rng.below(4) {
+                0 => g,
+                1 => Spec::wrap(W::Optional { catch: false }, self.id(), g),
+                _ => Spec::wrap(W::Many { catch: false }, self.id(), g),
+            };
+        }
         let (x, y) = if self.rng.chance(2, 3) {
             (
                 Spec::Item(self.pos_item(Strict::Any)),
